@@ -37,7 +37,7 @@ def rand_entry(rng):
     vtext = rng.choice(renderings(rng, e, up, rv))
     args = {}
     for _ in range(rng.randrange(1, 4)):
-        args[rng.choice([b"urgency", b"binary-only", b"x-opt", b"a"])] = rng.choice([b"low", b"medium", b"yes", b"high (security)", b"1"])
+        args[rng.choice([b"urgency", b"binary-only", b"x-opt", b"a", b"Urgency", b"X-Opt"])] = rng.choice([b"low", b"medium", b"yes", b"high (security)", b"1", b"HIGH", b"Medium", b"YES", b"Mixed-Case_9"])
     body = []
     for _ in range(rng.randrange(0, 6)):
         body.append(rng.choice([b"", b"  * Fix a bug.", b"    continued; with (parens)", b"  [ Someone ]", b"  * Closes: #12345 -- not a trailer",
